@@ -99,7 +99,7 @@ var (
 	reFuncHdr  = regexp.MustCompile(`^(func|iface|functype)\s+(\S+?)\s*\(([^)]*)\)\s*(?:\(([^)]*)\))?\s*$`)
 	reLabel    = regexp.MustCompile(`^([A-Za-z0-9_.+\-/@]+):\s+(.*)$`)
 	rePure     = regexp.MustCompile(`^pure\s+([A-Za-z_][A-Za-z0-9_]*)\s*\(([^)]*)\)\s*(\S+)\s*(?:=\s*(.*))?$`)
-	reKeyword  = regexp.MustCompile(`^(func|iface|functype|type|pure|axiom|requires|ensures|loop|rangeloop|assigns|let|trusted|pureeffect|iterator|sends|ghost|noreturncheck|safety|closedworld|implements|ghostparam)\b`)
+	reKeyword  = regexp.MustCompile(`^(func|iface|functype|type|pure|axiom|requires|ensures|loop|rangeloop|assigns|let|trusted|pureeffect|iterator|sends|ghost|noreturncheck|safety|closedworld|implements|ghostparam|atcall)\b`)
 )
 
 func splitNames(s string) []string {
@@ -259,6 +259,24 @@ func (cs *ContractSet) parseFile(path string) error {
 				return errf("clause outside function")
 			}
 			cur.Clauses = append(cur.Clauses, &Clause{Kind: "safety", Src: rest, Line: l.no})
+		case "atcall":
+			// atcall <callee>#<n> [label:] expr   – asserted just before that call (callee as printed by go/ssa, e.g. (*bytes.Reader).WriteTo)
+			if cur == nil {
+				return errf("clause outside function")
+			}
+			{
+				m := regexp.MustCompile(`^(\S+?)#(\d+)\s+(.*)$`).FindStringSubmatch(rest)
+				if m == nil {
+					return errf("bad atcall clause")
+				}
+				n, _ := strconv.Atoi(m[2])
+				label, tags, body := parseLabel(m[3])
+				e, err := parseExpr(body)
+				if err != nil {
+					return errf("%v", err)
+				}
+				cur.Clauses = append(cur.Clauses, &Clause{Kind: "atcall", Name: m[1], N: n, Label: label, Tags: tags, E: e, Src: body, Line: l.no})
+			}
 		case "closedworld":
 			if cur == nil {
 				return errf("clause outside function")
